@@ -416,6 +416,10 @@ fn leak_check(ex: &mut Exec<'_>, base_fds: usize, base_scratch: &[String], base_
     if s != base_scratch {
         ex.report(&["C10"], "tmp_file_left", format!("{what}: scratch directory holds {s:?}"))?;
     }
+    let e: Vec<String> = dir_listing(&ex.dir).into_iter().filter(|n| n != "data.mdb" && n != "lock.mdb").collect();
+    if !e.is_empty() {
+        ex.report(&["C10"], "tmp_file_left", format!("{what}: the environment directory holds {e:?}"))?;
+    }
     let t = dir_listing(&crate::driver::workdir_base().join("tmp"));
     if t != base_tmp {
         ex.report(&["C10"], "tmp_file_left", format!("{what}: default temp directory holds {t:?}"))?;
